@@ -246,6 +246,10 @@ class Random(Part):
 
 class C20(Prop):
     id = 'C20'
+    registered = True
+    technique = 'exhaustive small-scope enumeration + Hypothesis random graphs vs. reachability-closure oracle'
+    level_text = 'Every digraph on <=4 nodes (with self-loops) is enumerated in several insertion orders / node kinds / call patterns and compared with an independent reference partition; Hypothesis graphs of 5..14 nodes extend this beyond the bound. Exhaustive inside the bound, sampled beyond.'
+    level_note = 'Trusts the Warshall-closure reference implementation in ztv/props/c20.py and CPython set/dict semantics.'
     rule = ('exhaustive part: all digraphs with self-loops on <=4 nodes, each built in several node '
             'insertion orders, with int/str/tuple (value-keyed) and object (identity-keyed) nodes, with and '
             'without add_neighbors calls for sink nodes, with edges to unknown nodes; random part: Hypothesis '
